@@ -21,6 +21,18 @@ def replayIdx (s : State Nat Nat) : Nat → List (Event Nat) → Sum Nat (State 
     | some s' => replayIdx s' (i + 1) es
     | none => .inl i
 
+def parseXEvent (j : Json) : Option (XEvent Nat) :=
+  match j with
+  | .arr #[.str "raise"] => some .raise
+  | .arr #[.str "quit", w] => (w.getNat?.toOption).map .quit
+  | _ => (parseEvent j).map .base
+
+def xreplayIdx (s : XState Nat Nat) : Nat → List (XEvent Nat) → Sum Nat (XState Nat Nat)
+  | _, [] => .inr s
+  | i, e :: es => match xapply f fin s e with
+    | some s' => xreplayIdx s' (i + 1) es
+    | none => .inl i
+
 def isTerminal (s : State Nat Nat) : Bool :=
   s.remaining.isEmpty && s.sentinelsLeft == 0 && s.workers.all (· == .done)
 
@@ -36,6 +48,17 @@ def handle : Handler := fun cmd j =>
     | .inl i => pure (Json.mkObj [("ok", false), ("failed_at", toJson i)])
     | .inr s => pure (Json.mkObj [("ok", true), ("terminal", isTerminal s), ("handled", toJson s.handled),
                                  ("results", toJson s.results), ("queue_left", toJson s.queue.length)])
+  | "c41.xtrace" => do
+    let itemsJ ← getArr j "items"
+    let items ← itemsJ.mapM fun x => x.getNat?.toOption
+    let n ← getNat j "n"
+    let evJ ← getArr j "events"
+    let events ← evJ.mapM parseXEvent
+    match xreplayIdx (xinit items n) 0 events with
+    | .inl i => pure (Json.mkObj [("ok", false), ("failed_at", toJson i)])
+    | .inr s => pure (Json.mkObj [("ok", true), ("terminal", isTerminal s.base), ("handled", toJson s.base.handled),
+                                 ("results", toJson s.base.results), ("queue_left", toJson s.base.queue.length),
+                                 ("kill", toJson s.kill), ("dropped", toJson s.dropped)])
   | "c41.par" => do
     let threads ← getInt j "threads"
     let len : Option Nat ← match j.getObjVal? "len" with
